@@ -606,6 +606,8 @@ void convertTDPStoFlatBytes_double(TightDataPointStorageD *tdps, unsigned char**
 		sameByte = (unsigned char) (sameByte | 0x40); // 01000000, the 6th bit
 	if(confparams_cpr->errorBoundMode == PW_REL && confparams_cpr->accelerate_pw_rel_compression)
 		sameByte = (unsigned char) (sameByte | 0x08); 	
+	if(confparams_cpr->protectValueRange)
+		sameByte = (unsigned char) (sameByte | 0x04); //0000,0100
 	
 	if(tdps->allSameData==1)
 	{
